@@ -12,12 +12,14 @@ import (
 	"net/url"
 	"os"
 	"os/exec"
+	"regexp"
 	"sort"
 	"strings"
 
 	sebufhttp "github.com/SebastienMelki/sebuf/http"
 	"google.golang.org/protobuf/encoding/protojson"
 	"google.golang.org/protobuf/proto"
+	"google.golang.org/protobuf/reflect/protoreflect"
 )
 
 // TSBridge drives the Node co-simulator (node/bridge.mjs). All I/O with the node
@@ -513,6 +515,7 @@ func (k *Kernel) tsOnHandle(e map[string]any) {
 		m := md.NewReq()
 		if err := protojson.Unmarshal(rb, m); err != nil {
 			seen.JSONErr = err.Error()
+			seen.JSONErrField = jsonErrField(err.Error(), m)
 		} else {
 			seen.Req = m
 		}
@@ -631,4 +634,23 @@ func (k *Kernel) tsOnServed(e map[string]any) {
 			}
 		}
 	}
+}
+
+var reErrField = regexp.MustCompile(`field ([A-Za-z0-9_]+)`)
+
+// jsonErrField maps a protojson error ("invalid value for bool field name") to the
+// proto field name of the message, "" when it cannot be told.
+func jsonErrField(msg string, m proto.Message) string {
+	mm := reErrField.FindStringSubmatch(msg)
+	if mm == nil {
+		return ""
+	}
+	fds := m.ProtoReflect().Descriptor().Fields()
+	if fd := fds.ByJSONName(mm[1]); fd != nil {
+		return string(fd.Name())
+	}
+	if fd := fds.ByName(protoreflect.Name(mm[1])); fd != nil {
+		return string(fd.Name())
+	}
+	return ""
 }
